@@ -136,9 +136,11 @@ func genEngineCfg(r *rand.Rand, p genParams) EngineCfg {
 		c.Nodes = append(c.Nodes, n)
 	}
 	nActs := 1 + r.Intn(5)
-	for a := 1; a <= nActs; a++ {
-		c.Acts = append(c.Acts, a)
-	}
+	// the default action and a random choice of the others (case variants, prefixes of each other, blank-looking names)
+	c.Acts = append(c.Acts, 1)
+	others := []int{2, 3, 4, 5, 6, 7, 8}
+	r.Shuffle(len(others), func(i, j int) { others[i], others[j] = others[j], others[i] })
+	c.Acts = append(c.Acts, others[:nActs-1]...)
 	members := map[int][]int{}
 	for j := 0; j < nFlows; j++ {
 		id := nLeaves + j + 1
